@@ -808,3 +808,65 @@ def r6b_classifier(facts, rep):
     rep.check(not bad, "R6", short, "Ok-needs-exact-length", "IoKind::get_result classifies as Ok a result that is not a full page (nor 0 for a read): %s - a failed or short page I/O would be reported as success" % ", ".join("%s with res=%d" % x for x in bad[:4]), site=body.span, detail="evaluated for %d (variant, res) pairs: Ok only for res == %d, or res == 0 for reads" % (n, page))
     rep.check(ok_seen > 0, "R6", short, "Ok-reachable", "IoKind::get_result never classifies a result as Ok", site=body.span, detail="%d (variant, res) pairs classified Ok" % ok_seen)
     return 2
+
+
+NEG_ERRNO_SOURCES = ("io_uring::cqueue::Entry::result",)  # return -errno on failure (not -1 + errno)
+
+
+def r6c_backend_feeds_classifier(facts, rep):
+    """the I/O back-end and the classifier compose: for every call of IoKind::get_result whose `res` derives from an io_uring
+    completion (`-errno` on failure), the value handed over and the classification it gets are evaluated together for
+    representative completion results; a FAILED completion (negative) must be able to end as IoKindResult::Err and must never
+    be Ok - it must not be classified Retry unconditionally, which would resubmit the failed command forever (a hang)."""
+    import minterp
+
+    gr = facts.bodies.get("nomt::io::IoKind::get_result")
+    adt = facts.adts.get("nomt::io::IoKind")
+    if gr is None or adt is None:
+        raise CheckBroken("ANCHOR-MISSING nomt::io::IoKind::get_result")
+    variants = [v["name"] for v in adt["variants"]]
+    n = 0
+    sites = 0
+    for body in facts.bodies.values():
+        if body.crate != "nomt" or "::tests::" in body.id:
+            continue
+        for gb, t in body.calls():
+            if t.get("callee") != "nomt::io::IoKind::get_result" or len(t["args"]) < 2:
+                continue
+            local = [r for r in trace(body, t["args"][1]) if r.kind == "call" and any(str(r.what).endswith(x) for x in NEG_ERRNO_SOURCES)]
+            start = None
+            if local:
+                st = body.term(local[0].bb)
+                start = (st["t"], st["dest"]["l"])
+            else:
+                # the completion result may be handed to a helper (`finish_io(pending, event.result())`): a parameter of this
+                # function that every caller fills from the io_uring source
+                from core import xtrace
+
+                params = {r.what for r in trace(body, t["args"][1]) if r.kind == "param" and not r.fields}
+                for pidx in sorted(params):
+                    outer = [r for r in xtrace(facts, body, {"k": "copy", "pl": {"l": pidx}}, depth=3) if r.kind == "call" and r.body != body.id and any(str(r.what).endswith(x) for x in NEG_ERRNO_SOURCES)]
+                    if outer:
+                        start = (0, pidx)
+            if start is None:
+                continue
+            sites += 1
+            short = body.id.split("::", 1)[1]
+            bad = []
+            for v in (-(1 << 31), -4096, -125, -28, -22, -9, -5, -2, -1):
+                args = minterp.eval_at(facts, body, start[0], {start[1]: v}, gb, t["args"][1])
+                outcomes = set()
+                for a in args:
+                    if a is minterp.U or not isinstance(a, int):
+                        outcomes.add("?")
+                        continue
+                    for vi, vn in enumerate(variants):
+                        for o in minterp.run(facts, gr, {1: minterp.Variant("nomt::io::IoKind", vn, vi), 2: a}):
+                            outcomes.add(o.name if isinstance(o, minterp.Variant) else "?")
+                n += 1
+                if "?" in outcomes:
+                    raise CheckBroken("R6: the value handed to IoKind::get_result in %s could not be evaluated for a completion result of %d" % (body.id, v))
+                if "Ok" in outcomes or "Err" not in outcomes:
+                    bad.append((v, sorted(outcomes)))
+            rep.check(not bad, "R6", short, "failed-completion-can-fail", "a failed io_uring completion is not classified as an error: %s - the command would be reported as success or resubmitted forever (the commit hangs instead of failing)" % ", ".join("result %d -> %s" % x for x in bad[:3]), site=t.get("ln"), detail="completion results < 0 reach get_result as a value it classifies Err (possibly Retry on EINTR), never Ok")
+    return sites, n
